@@ -589,6 +589,40 @@ func (c *TermCtx) Forall(vars []*Term, body *Term) *Term {
 	t.bound = c.hasFreeBound(t)
 	return t
 }
+// ForallPat is Forall with an explicit instantiation pattern (keeps E-matching from looping on
+// background axioms).
+func (c *TermCtx) ForallPat(vars []*Term, body, pat *Term) *Term {
+	if isTrue(body) {
+		return body
+	}
+	if !patternOK(pat, map[int]bool{}) {
+		return c.Forall(vars, body)
+	}
+	t := c.intern(&Term{kind: kQuant, op: "forall", sort: "Bool", args: []*Term{body, pat}, bvars: vars})
+	t.bound = c.hasFreeBound(t)
+	return t
+}
+
+// patternOK: solvers reject patterns that contain Boolean structure (also after macro expansion).
+func patternOK(t *Term, seen map[int]bool) bool {
+	if seen[t.id] {
+		return true
+	}
+	seen[t.id] = true
+	if t.kind == kDef {
+		return patternOK(t.def, seen)
+	}
+	if t.sort == "Bool" || t.kind == kQuant {
+		return false
+	}
+	for _, a := range t.args {
+		if !patternOK(a, seen) {
+			return false
+		}
+	}
+	return true
+}
+
 func (c *TermCtx) Exists(vars []*Term, body *Term) *Term {
 	if isFalse(body) {
 		return body
@@ -710,6 +744,23 @@ func (p *tprinter) write(sb *strings.Builder, t *Term) {
 			sb.WriteString(t.op)
 			return
 		}
+		if t.op == "*" && len(t.args) == 2 && strip(t.args[0]).kind != kLit && strip(t.args[1]).kind != kLit {
+			// non-linear product: marked so that the solver runner can also try it as an uninterpreted function
+			a, b := t.args[0], t.args[1]
+			if a.id > b.id {
+				a, b = b, a
+			}
+			if t.sort == "Real" {
+				sb.WriteString("(@NLMULR@ ")
+			} else {
+				sb.WriteString("(@NLMULI@ ")
+			}
+			p.write(sb, a)
+			sb.WriteByte(' ')
+			p.write(sb, b)
+			sb.WriteByte(')')
+			return
+		}
 		sb.WriteByte('(')
 		sb.WriteString(t.op)
 		for _, a := range t.args {
@@ -725,7 +776,15 @@ func (p *tprinter) write(sb *strings.Builder, t *Term) {
 			fmt.Fprintf(sb, "(%s %s)", quoteSym(v.name), v.sort)
 		}
 		sb.WriteString(") ")
-		p.write(sb, t.args[0])
+		if len(t.args) == 2 {
+			sb.WriteString("(! ")
+			p.write(sb, t.args[0])
+			sb.WriteString(" :pattern (")
+			p.write(sb, t.args[1])
+			sb.WriteString("))")
+		} else {
+			p.write(sb, t.args[0])
+		}
 		sb.WriteByte(')')
 	}
 }
